@@ -792,6 +792,124 @@ def section_smooth_extreme(ck, rng, record):
                         record(f"difference:smooth-extreme:{dt}", f"k = {k}, tips {ages} on {G.paren(t)}, increments {x} ({dt}): {w}", rep, (n, 1, 0))
 
 
+# ----------------------------------------------------------------------------- live DATA updates (dates of taxa)
+def _date_model(style, kind, k, t, dates, rows, batched, dtype):
+    """a live model together with the handles a user has: the Taxa (to correct a date), the parameter, the transform.
+    style 'ctor': ReparameterizedTimeTreeModel built by the constructor; 'flexible': FlexibleTimeTreeModel whose heights
+    are a TransformedParameter over a node-height transform of that tree (from_json)."""
+    from torchtree import Parameter
+    from torchtree.evolution.tree_height_transform import DifferenceNodeHeightTransform
+    from torchtree.evolution.tree_model import ReparameterizedTimeTreeModel as R
+
+    x = torch.tensor(rows if batched else rows[0], dtype=dtype)
+    if style == "ctor":
+        taxa = G.make_taxa(dates)
+        tree = G.make_tree(t, taxa)
+        p = Parameter("x", x)
+        m = R("tree", tree, taxa, p) if kind == "ratio" else R("tree", tree, taxa, shifts=p)
+        if k:
+            m.transform = DifferenceNodeHeightTransform(m, k=k)
+        return m, taxa, p, m.transform
+    from torchtree.evolution.tree_model_flexible import FlexibleTimeTreeModel
+
+    dic = {}
+    cls_, arg = (("GeneralNodeHeightTransform", "tree") if kind == "ratio" else ("DifferenceNodeHeightTransform", "tree_model"))
+    params = {arg: "tree"}
+    if k:
+        params["k"] = k
+    js = {"id": "tree", "type": "FlexibleTimeTreeModel", "newick": G.newick(t), "taxa": taxa_json(dates),
+          "internal_heights": {"id": "heights", "type": "TransformedParameter",
+                               "transform": "torchtree.evolution.tree_height_transform." + cls_, "parameters": params,
+                               "x": {"id": "hx", "type": "Parameter", "tensor": x.tolist(),
+                                     "dtype": "torch.float64" if dtype == torch.float64 else "torch.float32"}}}
+    m = FlexibleTimeTreeModel.from_json(js, dic)
+    return m, dic["taxa"], dic["hx"], dic["heights"].transform
+
+
+def section_date_updates(ck, rng, record):
+    """live DATA updates: the date of one or several taxa is corrected on a live model, the public refresh is called
+    (update_leaf_heights(); for the ratio transform also update_bounds(), which is its documented hook), the parameters
+    are re-assigned with the same batch shape and dtype, and everything observable must equal a model freshly built at
+    the new dates; several corrections in a row, every parameterisation, both routes, batched or not, float64/float32"""
+    combos = [("ratio", None), ("difference", None), ("difference", 2.0)]
+    for i in range(90 if ck.thorough() else 30):
+        kind, k = combos[i % 3]
+        style = ("ctor", "flexible")[(i // 3) % 2]
+        dtype = torch.float32 if i % 5 == 4 else DT
+        batched = i % 2 == 1
+        n = rng.randrange(3, 7)
+        t = G.random_flip(G.random_topology(n, rng), rng)
+        sch = G.date_schemes(n, rng)
+        dates = list(sch[rng.choice(["ages", "calendar", "forward-max0", "ages-ties", "calendar-decimal"])])
+        B = rng.randrange(2, 4) if batched else 1
+        rows = [draw(kind, t, dates, rng) for _ in range(B)]
+        steps = []
+        rep = {"type": "date-update", "tree": G.paren(t), "dates": list(dates), "kind": kind, "k": k, "style": style,
+               "batched": batched, "dtype": str(dtype), "x": rows, "steps": steps}
+        ck.case(key=("date-update", G.paren(t), tuple(dates), kind, k, style, batched, str(dtype)),
+                bucket=f"live/date-update/{kind}{'/smooth' if k else ''}/{style}/{'batched' if batched else 'single'}/{dtype}")
+        try:
+            m, taxa, p, tr = _date_model(style, kind, k, t, dates, rows, batched, dtype)
+            _ = m.node_heights, m.branch_lengths(), tr.inv(m.node_heights[..., n:])  # fill every cache
+            probs = []
+            for u in range(rng.randrange(2, 4)):
+                # correct the dates of one or two taxa (keeping the reading of the vector: ages stay ages)
+                new_dates = list(dates)
+                for j in rng.sample(range(n), rng.choice([1, 1, 2])):
+                    if min(dates) == 0.0 and dates[j] == 0.0 and dates.count(0.0) == 1:
+                        continue
+                    new_dates[j] = dates[j] + rng.choice([-1.5, 0.75, 2.25, 4.0]) if dates[j] != 0.0 or min(dates) != 0.0 \
+                        else rng.choice([0.5, 3.0])
+                if min(dates) == 0.0 and min(new_dates) != 0.0:
+                    new_dates[new_dates.index(min(new_dates))] = 0.0
+                new_rows = [draw(kind, t, new_dates, rng) for _ in range(B)]
+                steps.append({"dates": list(new_dates), "x": new_rows})
+                for j in range(n):
+                    if new_dates[j] != dates[j]:
+                        taxa[j]["date"] = new_dates[j]
+                m.update_leaf_heights()
+                if hasattr(tr, "update_bounds"):
+                    tr.update_bounds()
+                xt = torch.tensor(new_rows if batched else new_rows[0], dtype=dtype)
+                p.tensor = xt.clone()
+                H = m.node_heights.detach().clone()
+                bl = m.branch_lengths().detach().clone()
+                inv = tr.inv(H[..., n:]).detach().clone()
+                fm, _ta, _p, ftr = _date_model(style, kind, k, t, new_dates, new_rows, batched, dtype)
+                Hf, blf = fm.node_heights.detach(), fm.branch_lengths().detach()
+                invf = ftr.inv(Hf[..., n:]).detach()
+                if not (same(H, Hf) and same(bl, blf)):
+                    probs.append(f"after correcting the dates to {new_dates} (update {u}) and re-assigning the parameters {new_rows}: "
+                                 f"node_heights {H.tolist()} / branch_lengths {bl.tolist()} but a model built at these dates has "
+                                 f"{Hf.tolist()} / {blf.tolist()}")
+                elif not same(inv, invf):
+                    probs.append(f"after correcting the dates to {new_dates} (update {u}): inverse {inv.tolist()} but a fresh model "
+                                 f"gives {invf.tolist()}")
+                else:
+                    rows_H = H.tolist() if batched else [H.tolist()]
+                    leaf = G.expected_leaf_heights(new_dates)
+                    eps = 2.3e-16 if dtype == DT else 1.2e-7
+                    for hrow in rows_H:
+                        S = max(1.0, max(abs(v) for v in hrow))
+                        if any(abs(hrow[j] - leaf[j]) > leaf_tol(leaf[j], dtype) for j in range(n)):
+                            probs.append(f"after the date correction to {new_dates} the tips sit at {hrow[:n]}")
+                            break
+                        if any(hrow[pp] < hrow[c] - 8 * eps * S for pp, c in G.dendropy_edges(m)):
+                            probs.append(f"after the date correction to {new_dates} a parent is younger than its child: {hrow}")
+                            break
+                dates = new_dates
+                if probs:
+                    break
+        except Exception as e:
+            probs = [f"raises {type(e).__name__}: {str(e)[:160]}"]
+        for w in probs[:1]:
+            record(f"date-update:{kind}{':smooth' if k else ''}:{style}", w, rep, (n, len(steps), 0))
+
+
+def same(a, b):
+    return a.shape == b.shape and a.dtype == b.dtype and torch.equal(a, b)
+
+
 def replay_route(obj):
     """re-build a recorded route (the randomised from_json variants are re-drawn: every variant of the same
     option value is expected to fail alike)"""
@@ -827,4 +945,32 @@ def replay_route(obj):
             probs = [f"raises {type(e).__name__}: {e}"]
         print(f"{name}: " + ("ok" if not probs else "VIOLATES: " + probs[0]))
         bad |= bool(probs)
+    return int(bad)
+
+
+def replay_date_update(obj):
+    """re-execute a recorded history of date corrections on a live model"""
+    t = G.parse_paren(obj["tree"])
+    n = G.ntips(t)
+    dtype = torch.float32 if "float32" in obj["dtype"] else DT
+    kind, k, style, batched = obj["kind"], obj["k"], obj["style"], obj["batched"]
+    dates = list(obj["dates"])
+    m, taxa, p, tr = _date_model(style, kind, k, t, dates, obj["x"], batched, dtype)
+    _ = m.node_heights, m.branch_lengths(), tr.inv(m.node_heights[..., n:])
+    bad = 0
+    for u, st in enumerate(obj["steps"]):
+        for j in range(n):
+            if st["dates"][j] != dates[j]:
+                taxa[j]["date"] = st["dates"][j]
+        dates = list(st["dates"])
+        m.update_leaf_heights()
+        if hasattr(tr, "update_bounds"):
+            tr.update_bounds()
+        p.tensor = torch.tensor(st["x"] if batched else st["x"][0], dtype=dtype)
+        H = m.node_heights.detach()
+        fm, _a, _b, _c = _date_model(style, kind, k, t, dates, st["x"], batched, dtype)
+        ok = same(H, fm.node_heights.detach()) and same(m.branch_lengths().detach(), fm.branch_lengths().detach())
+        print(f"correction {u}: dates {dates}\n  live  node_heights {H.tolist()}\n  fresh node_heights {fm.node_heights.tolist()}"
+              + ("" if ok else "\n  VIOLATES: the live model does not reflect the corrected dates"))
+        bad |= not ok
     return int(bad)
